@@ -311,9 +311,20 @@ fn binary_case(cx: &mut CaseCtx, input: Input, cfg: &GenCfg) -> CaseResult {
     let mut u = Unstructured::new(prog_bytes);
     let (p, texts) = build_program(cx, &mut u, cfg, lay_bytes);
     cx.set_key(&p);
-    let n = p.files.len();
+    let mut names: Vec<String> = p.files.iter().map(|f| f.path.clone()).collect();
+    let mut texts = texts;
+    // now and then one more file that declares no module (empty, comment only, or entirely
+    // excluded by the preprocessor) at a drawn position: it must not affect what is said about the others
+    if pick(&mut u, 3) == 0 {
+        const BLANK: [&str; 3] = ["", "// nothing here\n", "#if NOPE\nmodule Hidden\nstruct Y {}\n#endif\n"];
+        let at = pick(&mut u, names.len() + 1);
+        names.insert(at, "blank.slice".to_owned());
+        texts.insert(at, BLANK[pick(&mut u, 3)].to_owned());
+        cx.label("binary-with-module-less-file");
+        cx.label_if(at + 1 < names.len(), "binary-module-less-file-not-last");
+    }
+    let n = names.len();
     cx.nontrivial = n >= 2;
-    let names: Vec<String> = p.files.iter().map(|f| f.path.clone()).collect();
     let json_mode = pick(&mut u, 2) == 1;
     let run = |cx: &CaseCtx, salt: u64, order: &[usize], refs: u32| -> Result<(proc::RunResult, Option<Vec<u8>>), Fail> {
         let dir = CaseDir::new(&cx.workdir, cx.shard, cx.case_no + salt * 1_000_000);
@@ -328,7 +339,7 @@ fn binary_case(cx: &mut CaseCtx, input: Input, cfg: &GenCfg) -> CaseResult {
             }
             argv.push(os(&names[*i]));
         }
-        argv.push(os("--generator=./gen,k=v"));
+        argv.push(os("--generator=./gen,k=v,zeta=1,alpha=2,m=3,beta=4"));
         if json_mode {
             argv.push(os("--diagnostic-format=json"));
         }
@@ -392,7 +403,7 @@ impl Check for C15 {
         "C15"
     }
     fn rule(&self) -> String {
-        "families: in-process = proptest choice sequences -> multi-file programs (1..4 files, cross-file and cross-module references, aliases, inheritance, re-opened modules; valid, with warnings, or with one injected error) written to real files and compiled with compile_from_options in every permutation of the files and every source/reference assignment: acceptance, per-path observed content and the multiset of warnings (code, level, message, span) must not change; collisions = 20 templates (same definition in two files, definition vs nested module of another file, preprocessor symbols defined in one file and tested in another, containment cycles spread over files and used from outside; each with and without a variation) in every order and every source/reference assignment; binary = the same argv twice in fresh processes (byte-identical stdout, stderr, exit status, generator request) plus one random permutation and reference assignment (acceptance and per-path decoded request content). Non-trivial = >= 2 files".into()
+        "families: in-process = proptest choice sequences -> multi-file programs (1..4 files, cross-file and cross-module references, aliases, inheritance, re-opened modules; valid, with warnings, or with one injected error) written to real files and compiled with compile_from_options in every permutation of the files and every source/reference assignment: acceptance, per-path observed content and the multiset of warnings (code, level, message, span) must not change; collisions = 20 templates (same definition in two files, definition vs nested module of another file, preprocessor symbols defined in one file and tested in another, containment cycles spread over files and used from outside; each with and without a variation) in every order and every source/reference assignment; binary = the same argv (one generator with five arguments; now and then an extra module-less file at a drawn position) twice in fresh processes (byte-identical stdout, stderr, exit status, generator request) plus one random permutation and reference assignment (acceptance and per-path decoded request content). Non-trivial = >= 2 files".into()
     }
     fn assumptions(&self) -> Vec<String> {
         vec!["only the order of files and of reports may change; error diagnostics of rejected programs are not compared across arrangements (only that they are rejected)".into()]
@@ -411,6 +422,7 @@ impl Check for C15 {
             "cycle-across-files",
             "reproducibility-compared",
             "request-content-compared",
+            "binary-module-less-file-not-last",
         ]
     }
     fn needs_binary(&self) -> bool {
